@@ -495,7 +495,10 @@ def onOpEnd (w : W) (j : Judge) (stopping : Bool) : Judge × List String :=
     | none => acc
     | some l =>
       let left := l.filter (fun q => (pr w q).state.isRunning)
-      if acc.1.reqs.any (fun r => r.run == run.id && !r.orphaned) || stopping then
+      -- the job of the run may also still have commands planned: a `start_process` that joined it after the failure (the stop is
+      -- applied by `Starter.after`, when the job ends); the Starter of the world is in lock-step with the real one
+      if acc.1.reqs.any (fun r => r.run == run.id && !r.orphaned) || stopping
+         || w.current.any (fun jb => jb.app == run.app && jb.runId == run.id && jobInProgress jb) then
         (setRun acc.1 { run with stopDue := some left }, acc.2)
       else (setRun acc.1 { run with stopDue := none },
             if left.isEmpty then acc.2
